@@ -32,7 +32,8 @@ pub fn run(case: &Value, em: &mut Emitter) {
 
 pub fn gen(rng: &mut Rng, _size: usize) -> Value {
     let n = 2 + rng.below(4) as usize; // pool of names used in this case: small, so prefixes are shared
-    let mut path = |rng: &mut Rng| -> Vec<u64> { (0..1 + rng.below(6)).map(|_| 1 + rng.below(n as u64)).collect() };
+    let long = rng.chance(1, 15);
+    let mut path = |rng: &mut Rng| -> Vec<u64> { (0..1 + rng.below(if long { 90 } else { 6 })).map(|_| 1 + rng.below(n as u64)).collect() };
     let base = path(rng);
     let mut target = path(rng);
     if rng.chance(1, 3) {
